@@ -27,6 +27,9 @@ pub enum Mode {
     FollowIter { head: bool, cap: usize },
     /// ExecutionEngine::execute(line, ExecutionConfig::default()) for every line in `engine_lines`
     Engine,
+    /// batch-style use of the engine API: ExecutionConfig::aggregate_update() per line of `engine_lines`, then
+    /// ExecutionConfig::aggregate_result() requested twice (the result call must be repeatable)
+    EngineBatch,
     /// no query at all: a 16-entry std HashMap is filled on the SUT thread and its iteration order
     /// delivered (measures whether two key blocks really give different hash orders)
     HashProbe,
@@ -63,6 +66,8 @@ pub struct WorldSpec {
     /// simulated duration of one EOF poll (0 = a spinning follower on a fast machine; seconds = a slow or
     /// descheduled one, or equivalently a writer that pauses)
     pub poll_cost_ns: u64,
+    /// the main input files behave like pipes (`cmd | sqlgrep --stdin`, FIFOs): size 0 in metadata, not seekable
+    pub pipe_inputs: bool,
 }
 
 impl WorldSpec {
@@ -87,6 +92,7 @@ impl WorldSpec {
             repeat: 1,
             event_budget: 20_000,
             poll_cost_ns: 0,
+            pipe_inputs: false,
         }
     }
 }
@@ -353,6 +359,47 @@ fn drive(spec: &WorldSpec, running: Arc<AtomicBool>) -> DriverOut {
                 }
             }
             Mode::HashProbe | Mode::SeamProbe => {}
+            Mode::EngineBatch => {
+                let mut engine = ExecutionEngine::new(&tables, &statement);
+                if engine.is_join() {
+                    if let Err(err) = engine.execute_joined_table(running.clone()) {
+                        out.status = Status::Err(format!("{}", err));
+                        return out;
+                    }
+                }
+                let update = engine.execution_config();
+                for line in &spec.engine_lines {
+                    if let Err(err) = engine.execute(line.clone(), &update) {
+                        out.status = Status::Err(format!("{}", err));
+                        return out;
+                    }
+                }
+                let mut printer = OutputPrinter::with_printer(SimPrinter, parse_format(&spec.format));
+                for _ in 0..2 {
+                    let before = seam::with_world(|w| w.log.len()).unwrap_or(0);
+                    let mut eo = EngineOut { error: None, has_row: false, columns: Vec::new(), rows: Vec::new(), printed: Vec::new(), updated: false, reached_limit: false };
+                    match engine.execute(String::new(), &ExecutionConfig::aggregate_result()) {
+                        Ok(output) => {
+                            if let Some(result_row) = output.result_row {
+                                eo.has_row = true;
+                                eo.columns = result_row.columns.clone();
+                                printer.print(&result_row, true);
+                                eo.printed = seam::with_world(|w| {
+                                    w.log[before..].iter().filter(|e| e.kind == EvKind::Print).map(|e| String::from_utf8_lossy(e.text.as_ref().unwrap()).into_owned()).collect()
+                                })
+                                .unwrap_or_default();
+                            }
+                            seam::with_world(|w| w.engine.push(eo));
+                        }
+                        Err(err) => {
+                            eo.error = Some(format!("{}", err));
+                            seam::with_world(|w| w.engine.push(eo));
+                            out.status = Status::Err(format!("{}", err));
+                            return out;
+                        }
+                    }
+                }
+            }
             Mode::Engine => {
                 let mut engine = ExecutionEngine::new(&tables, &statement);
                 if engine.is_join() {
@@ -441,7 +488,8 @@ pub fn run_world(spec: &WorldSpec) -> WorldResult {
             let running = Arc::new(AtomicBool::new(true));
             let mut world = Box::new(World::new());
             for (path, data) in &spec2.files {
-                world.add_file(path, data.clone());
+                let idx = world.add_file(path, data.clone());
+                world.files[idx].pipe = spec2.pipe_inputs;
             }
             for (path, data) in &spec2.extra_files {
                 world.add_file(path, data.clone());
